@@ -199,13 +199,14 @@ func (w *schedWorld) applyBatches(i int, view map[string]string, cut []bool) err
 	b.mu.Lock()
 	opts := b.opts
 	b.mu.Unlock()
+	srvOpts := simMirrorOpts(opts)
 	var cur []*table.Path
 	flush := func() error {
 		if len(cur) == 0 {
 			return nil
 		}
-		for _, m := range table.CreateUpdateMsgFromPaths(cur, opts) {
-			buf, err := m.Serialize(opts)
+		for _, m := range table.CreateUpdateMsgFromPaths(cur, srvOpts) {
+			buf, err := m.Serialize(srvOpts)
 			if err != nil {
 				return fmt.Errorf("serialise: %v", err)
 			}
